@@ -49,7 +49,17 @@ def model_request(case, impl):
         init = {"parsed": impl["tree"]}
     else:
         init = {"scratch": geom.model_expr(case["init"])}
-    ops = [{"k": op["k"], **({"x": geom.model_expr(op["x"])} if "x" in op else {})} for op in case["ops"]]
+    ops = []
+    for i, op in enumerate(case["ops"]):
+        m = {"k": op["k"]}
+        if "xt" in op:
+            if i < len(impl["steps"]) and "xtree" in impl["steps"][i]:
+                m["xp"] = impl["steps"][i]["xtree"]
+            else:
+                break  # the implementation stopped before this step
+        elif "x" in op:
+            m["x"] = geom.model_expr(op["x"])
+        ops.append(m)
     return {"op": "model", "init": init, "ctr": impl["ctr"], "ops": ops}
 
 
@@ -128,6 +138,8 @@ def compare(case, impl, den, model):
     for i, op in enumerate(case["ops"]):
         if i >= len(impl["steps"]):
             return "U-geometry (implementation raised)", {"impl": impl.get("raised"), "step": i}
+        if i >= len(model["steps"]):
+            return "U-geometry (model stopped)", {"step": i}
         si, sm = impl["steps"][i], model["steps"][i]
         if si["str"] != sm["str"]:
             return "U-geometry-ops (operators vs HalfSpace.__and__/__or__/__invert__/__iand__/__ior__)", {
@@ -135,7 +147,8 @@ def compare(case, impl, den, model):
         if op["k"] == "write":
             d = den[("write", i)]
             ti = d.get("toks") if d.get("ok") or "toks" in d else None
-            if ti != sm["toks"] or si["text"].count("$") != sm["text"].count("$"):
+            # comments are compared by number of comment-carrying lines (a second "$" on a line is inside the first)
+            if ti != sm["toks"] or si["text"].count("$") != geom.abstract(sm["text"], False).count("$"):
                 return "U-geometry-print (updateValues/fmt vs HalfSpace._update_values/GeometryTree.format)", {
                     "step": i, "impl": si["text"], "model": sm["text"]}
     return None
